@@ -161,6 +161,10 @@ func main() {
 		datumBodyReport(fset, pkgs)
 		return
 	}
+	if len(os.Args) > 2 && os.Args[2] == "axisloop" {
+		axisLoopReport(fset, pkgs)
+		return
+	}
 	if len(os.Args) > 2 && os.Args[2] == "axis" {
 		axisReport(fset, pkgs)
 		return
